@@ -139,8 +139,12 @@ func (g *gen) relayFrom(results []*abci.ExecTxResult) {
 			switch e.Type {
 			case channeltypes.EventTypeSendPacket:
 				if p, ok := packetOf(e); ok {
-					if g.rng.Intn(6) != 0 {
+					if k := g.rng.Intn(12); k >= 5 && g.nHostile > 0 {
 						g.relayQ = append(g.relayQ, channeltypes.NewMsgRecvPacket(p, sentinelProof, clienttypes.ZeroHeight(), g.relayer.Addr()))
+					} else if k >= 2 { // never delivered, but a hostile counterparty acknowledges it with bytes of its choosing (the
+						// first packet of every history, then one in four)
+						g.hostileAck(p)
+						g.unrelayed = append(g.unrelayed, p)
 					} else { // one packet in six is never delivered: it is timed out (refund through the fx middleware) once its time is up
 						g.unrelayed = append(g.unrelayed, p)
 					}
